@@ -2,7 +2,7 @@
 from __future__ import annotations
 
 import ast
-from typing import Dict, List, Optional, Set, Tuple
+from typing import Any, Dict, List, Optional, Set, Tuple
 
 from jinja2 import nodes as jn
 
@@ -269,6 +269,48 @@ def rule_Y6(ctx) -> None:
         return out
 
     a, b = optional_source(ann), optional_source(args)
+    if not a or not b:
+        # not written as `if self.optional:` blocks: decide by evaluation - with self.optional bound to True / False both results
+        # must fold (they consult nothing else that says "optional") and follow it
+        from ..absint import Interp
+        from ..sym import A, N, show, walk
+        from .c03 import field_args_at
+        problems, unknown = [], []
+        for opt in (True, False):
+            got, dep = field_args_at(models, None, opt)
+            ctx.count(1)
+            if got is None:
+                other = [d for d in (dep or []) if "optional" in d.lower()]
+                (problems if other else unknown).append(f"with self.optional={opt} the field arguments still depend on {other or dep}")
+            elif ("optional=True" in got) != opt:
+                problems.append(f"with self.optional={opt} the field arguments are {list(got)}")
+        depth: Dict[bool, Dict[Any, int]] = {}
+        for opt in (True, False):
+            binds = {A(N("self"), "optional"): opt, A(N("self"), "repeated"): False, A(N("self"), "use_builtins"): False, A(N("self"), "wrapped_py_type"): None, A(N("self"), "py_type"): "T"}
+            paths = [p for p in Interp(models, bindings=binds, fork_ifexp=True).run(ann) if p.outcome == "return" and p.value is not None]
+            ctx.count(len(paths))
+            other = sorted({show(k) for p in paths for k in p.valuation if "optional" in show(k).lower()})
+            if other:
+                problems.append(f"with self.optional={opt} the annotation still depends on {other}")
+            # how many Optional wrappers the annotation carries, per combination of the other decisions it takes
+            depth[opt] = {frozenset(p.valuation.items()): sum(1 for t in walk(p.value) if t[0] == "call" and t[1][0] == "a" and t[1][2] == "optional") for p in paths}
+        if not problems:
+            if not depth[True] or set(depth[True]) != set(depth[False]):
+                unknown.append("the annotation takes different decisions when self.optional is True and when it is False")
+            else:
+                for key, d_true in depth[True].items():
+                    if d_true != depth[False][key] + 1:
+                        problems.append(f"the annotation carries {d_true} Optional wrappers with self.optional=True and {depth[False][key]} with self.optional=False")
+                        break
+        if problems:
+            ctx.refuted("Y6", "annotation~field-args:optional", problems[0][:80], models.loc(args),
+                        "annotation and field arguments do not follow the same `optional` property: " + problems[0] + "; subclasses that override `optional` "
+                        "(PydanticOneOfFieldCompiler) then produce an Optional annotation without optional=True (or the reverse)", "pydantic_dataclasses + a oneof with an enum member + to_dict()")
+        elif unknown:
+            ctx.inconclusive("Y6", "annotation~field-args:optional", f"optional tests not recognised: {a} / {b}; {unknown[0]}"[:300], models.loc(args))
+        else:
+            ctx.proved("Y6", "annotation~field-args:optional", models.loc(args), "evaluated at self.optional = True / False: Optional[...] and optional=True appear together")
+        return
     if a == b == {"self.optional"}:
         ctx.proved("Y6", "annotation~field-args:optional", models.loc(args))
     elif not a or not b:
